@@ -318,14 +318,15 @@ pub fn i2_check(w: &mut World) {
         if c.polls == 0 {
             // a child that is never started can never be seen to resolve / yield: the owning family's own
             // promise (resolve with / yield whatever its children produce) is broken as well
-            let mut props = vec!["C20"];
+            // (C01 as well: a child that was never started has registered no waker, so no wake-up will ever come)
+            let mut props = vec!["C20", "C01"];
             if let Some((p, _)) = c.parent {
                 if w.ch[p].fam != Fam::Co && w.ch[p].kind == Kind::Node {
                     props.push(w.ch[p].fam.prop());
                     // C20 excludes the sequential combinators: there the *current* input (the only one that is not
                     // held back) left unpolled at a Pending return is a lost-progress defect of that combinator
                     if matches!(w.ch[p].fam, Fam::Chain | Fam::WaitF | Fam::WaitS) {
-                        props[0] = "C01";
+                        props.remove(0);
                     }
                 }
             }
